@@ -6,7 +6,7 @@ from ..algebra import Poly
 from ..ndarr import Arr, InterpRaise
 from ..absint import Obj, ClassRef
 from ..pipeline import Pipeline
-from ..dv import DV, tags_of
+from ..dv import DV, tags_of, NONZERO_STEPS
 from ..dvrun import explore, bicomplex_aware
 from . import history
 
@@ -381,7 +381,7 @@ def nomutate(ctx):
             holder['kept'] = sorted({nm for nm, buf, n0 in counts if len(buf.writes) > n0})
             return (len(x.buf.writes) - wx0, len(extra.buf.writes) - we0, before[0] == list(x.buf.data),
                     before[1] == list(extra.buf.data), holder['kept'])
-        ex = explore(ctx.repo, body, pinned={'(np.abs(step) > 0).all()': True})
+        ex = explore(ctx.repo, body, pinned=NONZERO_STEPS)
         bad = []
         for decisions, res, exc in ex.paths:
             if exc is not None:
@@ -413,7 +413,7 @@ def nomutate(ctx):
                 out.append((len(base.buf.writes) - b0[0], len(nom.buf.writes) - n0[0], b0[1] == list(base.buf.data),
                             n0[1] == list(nom.buf.data)))
             return out
-        ex = explore(ctx.repo, body, pinned={'(np.abs(step) > 0).all()': True})
+        ex = explore(ctx.repo, body, pinned=NONZERO_STEPS)
         bad = []
         for decisions, res, exc in ex.paths:
             if exc is not None:
